@@ -174,6 +174,21 @@ def main(argv):
     for i, t in enumerate(tasks):
         mod = importlib.import_module(t['module'])
         c = {c.name: c for c in getattr(mod, '__conds__', [])}[t['cond']]
+        if c.meta.get('engine') == 'smt':
+            # E3: direct SMT lemma over the AST of the current source (no CrossHair): see vt/ast2smt.py
+            from vt import ast2smt
+            t0 = time.process_time()
+            r = ast2smt.lemma()
+            st = {'confirmed': 'confirmed', 'refuted': 'refuted'}.get(r['status'], 'unknown')
+            out = dict(status=st, message='[E3 %s] %s' % (r['status'], r['message']), args=r.get('args'),
+                       paths=len(r.get('obligations') or []) or 1, confirmed_paths=len(r.get('obligations') or []),
+                       z3_queries=r.get('queries', 0), z3_seconds=round(r.get('seconds', 0.0), 3),
+                       cpu_s=round(time.process_time() - t0, 2), index=t['index'])
+            if st == 'refuted':
+                out['kind'] = 'SMT_MODEL'
+            sys.stdout.write('\n@@RESULT@@' + json.dumps(out) + '\n')
+            sys.stdout.flush()
+            continue
         out = analyze(c, t.get('fam'), 'check', t['timeout'], t.get('exclude'))
         if out['status'] in ('confirmed', 'unknown') and t.get('reach', True):
             r = analyze(c, t.get('fam'), 'reach', t['timeout'], t.get('exclude'))
